@@ -69,18 +69,40 @@ Proof. exact walk_stat_proof. Qed.
    readlink target is reported instead, as in the code).  In particular the first of a group of
    regular files sharing an inode is reported as the file, every later one as a link naming the
    first, and entries with different inodes never name each other.
-   [ino_consistent]: two different non-directory names of one inode both have st_nlink > 1. *)
+   Hypotheses a faithful model forces:
+   [ino_consistent]: two different non-directory names of one inode number both have st_nlink > 1
+                     (st_nlink counts all names; true for a tree that does not change);
+   [one_fs]:         equal inode numbers below the root mean equal devices.  The code keys its
+                     seenFiles map by st_ino alone, so WITHOUT this hypothesis the statement is
+                     false: walk_hardlinks_cross_device_refuted below, replayed on the real code. *)
 Theorem walk_hardlinks :
-  forall t, wf_tree t -> ino_consistent t ->
+  forall t, wf_tree t -> one_fs t -> ino_consistent t ->
   forall st, In st (walk t) ->
   forall cs r, cs <> [] -> tree_at t cs r -> st_path st = joinc cs -> is_dir r = false ->
   exists cs0 r0,
-    cs0 <> [] /\ tree_at t cs0 r0 /\ is_dir r0 = false /\ l_ino r0 = l_ino r /\
+    cs0 <> [] /\ tree_at t cs0 r0 /\ is_dir r0 = false /\ l_ino r0 = l_ino r /\ l_dev r0 = l_dev r /\
     (forall cs1 r1, cs1 <> [] -> tree_at t cs1 r1 -> is_dir r1 = false -> l_ino r1 = l_ino r ->
                     cs1 = cs0 \/ compare_path (joinc cs0) (joinc cs1) = Lt) /\
     st_linkname st = (if is_symlink r then l_target r
                       else if bytes_eqb (joinc cs0) (joinc cs) then [] else joinc cs0).
 Proof. exact walk_hardlinks_proof. Qed.
+
+(* The full statement (no [one_fs]) is FALSE of the model: there is a well-formed tree with
+   consistent link counts in which a regular file is reported as a hard link to a file on ANOTHER
+   device (two devices below the root, e.g. mount points, each holding an inode number 2 with two
+   names; [WalkP.t_xdev]).  Replayed on the real fs.Walk over two tmpfs mounts: m2/f is reported
+   with Linkname "m1/f" (kind 0903, corpus/C09/cross-device.witness). *)
+Theorem walk_hardlinks_cross_device_refuted :
+  exists t, wf_tree t /\ ino_consistent t /\
+    exists st cs r cs0 r0,
+      In st (walk t) /\ cs <> [] /\ tree_at t cs r /\ st_path st = joinc cs /\
+      is_dir r = false /\ is_symlink r = false /\
+      cs0 <> [] /\ tree_at t cs0 r0 /\ st_linkname st = joinc cs0 /\ l_dev r0 <> l_dev r.
+Proof. exact walk_hardlinks_cross_device_refuted_proof. Qed.
+
+(* the well-formedness check applied by the glue to every snapshot implies wf_tree *)
+Theorem wf_tree_b_reflects : forall t, wf_tree_b t = true -> wf_tree t.
+Proof. exact wf_tree_b_sound. Qed.
 
 (* Walking a sub-target (fs.Walk(ctx, target, fn) with a target that Clean reduces to the non-empty
    component list cs): nothing is reported if there is no such node; otherwise exactly the node at
@@ -132,6 +154,8 @@ Print Assumptions walk_complete_once.
 Print Assumptions walk_parent_first.
 Print Assumptions walk_stat.
 Print Assumptions walk_hardlinks.
+Print Assumptions walk_hardlinks_cross_device_refuted.
+Print Assumptions wf_tree_b_reflects.
 Print Assumptions walk_at_sub.
 Print Assumptions subdir_walk_prefixed.
 Print Assumptions view_walk_sorted.
@@ -140,7 +164,7 @@ Print Assumptions sorted_b_reflects.
 (* ---- non-vacuity ---- *)
 Definition rec_ (mode ino nlink : N) (target : list N) : lrec :=
   {| l_mode := mode; l_uid := 1000; l_gid := 5; l_size := 3; l_mtime := 1600000000000000007; l_rdev := 0;
-     l_ino := ino; l_nlink := nlink; l_target := target; l_xattrs := [] |}.
+     l_ino := ino; l_nlink := nlink; l_target := target; l_xattrs := []; l_dev := 0 |}.
 Definition A := 97. Definition B := 98. Definition X := 120. Definition Y := 121.
 (* stored unsorted:  "a-b" (regular, inode 5)   "a"/ { "y" -> "/t" ; "x" (regular, inode 5) }   "a b" (regular) *)
 Definition ex_tree : tree :=
@@ -205,4 +229,12 @@ Example ex_subdirs :
       ([115; 47; A; 32; B], []); ([115; 47; A; 45; B], [115; 47; A; 47; X]) ]
   | None => False
   end.
+Proof. vm_compute. split; reflexivity. Qed.
+
+(* the refutation witness: the model reports m2/f and m2/g as links to m1/f *)
+Example ex_cross_device :
+  map (fun s => (st_path s, st_linkname s)) (walk t_xdev) =
+  [ ([109; 49], []); ([109; 49; 47; 102], []); ([109; 49; 47; 103], [109; 49; 47; 102]);
+    ([109; 50], []); ([109; 50; 47; 102], [109; 49; 47; 102]); ([109; 50; 47; 103], [109; 49; 47; 102]) ]
+  /\ spec_walk_b [] (entries_root t_xdev) (walk t_xdev) = false.
 Proof. vm_compute. split; reflexivity. Qed.
